@@ -524,10 +524,10 @@ impl<'de, R: Read<'de>> Parser<R> {
                         self.expect_ident(b"8")?;
                         Token::ByteVecOpen(b')')
                     }
-                    Some(b'b') => Token::Number(self.parse_radix_literal(2)?),
-                    Some(b'o') => Token::Number(self.parse_radix_literal(8)?),
-                    Some(b'd') => Token::Number(self.parse_radix_literal(10)?),
-                    Some(b'x') => Token::Number(self.parse_radix_literal(16)?),
+                    Some(b'b') => Token::Number(self.parse_whole_number(2)?),
+                    Some(b'o') => Token::Number(self.parse_whole_number(8)?),
+                    Some(b'd') => Token::Number(self.parse_whole_number(10)?),
+                    Some(b'x') => Token::Number(self.parse_whole_number(16)?),
                     Some(b'\\') => Token::Char(self.read.parse_r6rs_char(&mut self.scratch)?),
                     Some(b'%') if self.options.racket_hash_percent_symbols => {
                         Token::Symbol(self.parse_symbol_suffix("#%")?.into())
@@ -542,7 +542,9 @@ impl<'de, R: Read<'de>> Parser<R> {
                 if next == 0 || is_delimiter(next) || is_sign_subsequent(next) {
                     Token::Symbol(self.parse_symbol_suffix("-")?.into())
                 } else {
-                    Token::Number(self.parse_num_literal(10, false)?)
+                    let number = self.parse_num_literal(10, false)?;
+                    self.expect_number_end()?;
+                    Token::Number(number)
                 }
             }
             b'+' => {
@@ -551,19 +553,24 @@ impl<'de, R: Read<'de>> Parser<R> {
                 if next == 0 || is_delimiter(next) || is_sign_subsequent(next) {
                     Token::Symbol(self.parse_symbol_suffix("+")?.into())
                 } else {
-                    Token::Number(self.parse_num_literal(10, true)?)
+                    let number = self.parse_num_literal(10, true)?;
+                    self.expect_number_end()?;
+                    Token::Number(number)
                 }
             }
             b'0'..=b'9' => {
                 if self.options.leading_digit_symbols {
                     let symbol = self.parse_symbol()?;
                     let mut num_parser = Parser::from_slice_custom(symbol.as_bytes(), self.options);
+                    // Only a token that is a numeric literal as a whole is a number.
                     match num_parser.parse_num_literal(10, true) {
-                        Ok(token) => Token::Number(token),
-                        Err(_) => Token::Symbol(symbol.into()),
+                        Ok(token) if matches!(num_parser.peek(), Ok(None)) => Token::Number(token),
+                        _ => Token::Symbol(symbol.into()),
                     }
                 } else {
-                    Token::Number(self.parse_num_literal(10, true)?)
+                    let number = self.parse_num_literal(10, true)?;
+                    self.expect_number_end()?;
+                    Token::Number(number)
                 }
             }
             b'"' => {
@@ -1048,6 +1055,23 @@ impl<'de, R: Read<'de>> Parser<R> {
                 Ok(None) => return Err(self.peek_error(ErrorCode::EofWhileParsingVector)),
             }
         }
+    }
+
+    // A numeric literal extends to the next delimiter (R7RS 7.1.1); anything
+    // else directly after its last digit makes the token malformed.
+    fn expect_number_end(&mut self) -> Result<()> {
+        match self.peek()? {
+            Some(c) if !is_delimiter(c) => Err(self.peek_error(ErrorCode::InvalidNumber)),
+            _ => Ok(()),
+        }
+    }
+
+    // Parses a radix-prefixed literal (the prefix has been consumed) that
+    // must make up the whole token.
+    fn parse_whole_number(&mut self, radix: u8) -> Result<Number> {
+        let number = self.parse_radix_literal(radix)?;
+        self.expect_number_end()?;
+        Ok(number)
     }
 
     // Parses a full numeric literal, including a potential radix prefix
